@@ -83,7 +83,7 @@ func (ex *Exec) callAt(x ssa.Value, cc *ssa.CallCommon, h *Heap, reach Term) {
 	var dynVars map[string]SV
 	var dynPre *Heap
 	if ex.depth == 0 && ex.contract != nil && len(ex.contract.DynCalls) > 0 {
-		var owner ssa.Value
+		var owner, lookupKey ssa.Value
 		switch v := cc.Value.(type) {
 		case *ssa.Field:
 			fld = fieldName(v.X.Type(), v.Field)
@@ -99,6 +99,7 @@ func (ex *Exec) callAt(x ssa.Value, cc *ssa.CallCommon, h *Heap, reach Term) {
 					st, _ := derefStruct(fa.X.Type())
 					fld = fieldName(st, fa.Field)
 					owner = fa.X
+					lookupKey = v.Index
 				}
 			}
 		}
@@ -106,11 +107,12 @@ func (ex *Exec) callAt(x ssa.Value, cc *ssa.CallCommon, h *Heap, reach Term) {
 			if dc.Field != fld || dc.Like == "" || owner == nil {
 				continue
 			}
+			// the stand-in takes the lookup key, then the call's arguments
 			f := ex.P.byKey[ex.fn.Pkg.Pkg.Path()+"."+dc.Like]
-			if f == nil || f.Signature.Params().Len() != len(cc.Args) {
-				unsupported("dyncall %s like %s: no such method with %d parameters", fld, dc.Like, len(cc.Args))
+			if f == nil || f.Signature.Params().Len() != len(cc.Args)+1 {
+				unsupported("dyncall %s like %s: no such method with the lookup key and %d parameters", fld, dc.Like, len(cc.Args))
 			}
-			args := []Term{ex.val(owner)}
+			args := []Term{ex.val(owner), ex.val(lookupKey)}
 			for _, a := range cc.Args {
 				args = append(args, ex.val(a))
 			}
